@@ -15,8 +15,9 @@ def generate(ctx, sd, label, max_tags, max_fields, max_weird, rich, timeout):
     """TLC enumerates every line with at most max_weird non-default element forms; the model invariants are
     checked on every one of them in the same run."""
     cfg = "G%s.cfg" % label
+    # EmitChecked = the four C12_* model invariants (named by Assert) + the print, with the meaning computed once
     ctx.write_cfg(sd, cfg, "Spec", {"MaxTags": max_tags, "MaxFields": max_fields, "MaxWeird": max_weird, "Rich": rich},
-                  INV, extra="INVARIANT Emit")
+                  ["TypeOK"], extra="INVARIANT EmitChecked")
     lines = ctx.tlc_generate(sd, "LineProtocol", cfg, exhaustive=True, workers=4, timeout=timeout)
     log("lines %s: %d (tags<=%d fields<=%d non-default<=%d %s catalogs)" % (label, len(lines), max_tags, max_fields, max_weird, "full" if rich else "core"))
     return lines
@@ -55,6 +56,11 @@ def run(ctx):
                 seen.add(k)
                 lines.append(l)
 
+    # the named invariants on their own (small configuration), so that a violated one is reported by name
+    # (thorough tier; the generation runs check the same formulas through EmitChecked)
+    if not ctx.quick():
+        ctx.write_cfg(sd, "MC.cfg", "Spec", {"MaxTags": 2, "MaxFields": 2, "MaxWeird": 1, "Rich": True}, INV)
+        ctx.tlc_check(sd, "LineProtocol", "MC.cfg", workers=4, timeout=600, coverage=True)
     if os.environ.get("VERIF_C12_DEV"):                          # development aid: the smallest configuration only
         add(generate(ctx, sd, "rich1", 3, 3, 1, True, 600))
     elif ctx.quick():
@@ -75,14 +81,24 @@ def run(ctx):
     for i, l in enumerate(lines):
         l["idx"] = i + 1
     dump = os.path.join(ctx.scratch, "c12-accepted-lines.txt")
-    inp = {"lines": lines, "seed": ctx.seed, "multi": ctx.pick(3000, 30000), "mutations": ctx.pick(6, 20), "max_sigs": 12,
-           "dump_lines": dump}
-    p = ctx.write_json("lp-lines.json", inp)
-    recs, out, rc = ctx.go_test(PKG, FILES, "^%s$" % TEST, env={"VERIF_IN": p}, timeout=1500, label="lineprotocol")
-    done = ctx.process(recs, out, rc, TEST, confirm)
-    os.remove(p)
-    if not ctx.violations and done.get("lines", 0) != len(lines):
-        raise Infra("driver checked %s lines of %d" % (done.get("lines"), len(lines)))
+    # one go test run per 60 000 lines (bounded memory); counters are summed
+    done, chunk = {}, 60000
+    nchunks = (len(lines) + chunk - 1) // chunk
+    for ci in range(nchunks):
+        part = lines[ci * chunk:(ci + 1) * chunk]
+        inp = {"lines": part, "seed": ctx.seed, "multi": ctx.pick(3000, 30000) // nchunks, "mutations": ctx.pick(6, 20), "max_sigs": 8,
+               "dump_lines": dump if ci == 0 else ""}
+        p = ctx.write_json("lp-lines.json", inp)
+        recs, out, rc = ctx.go_test(PKG, FILES, "^%s$" % TEST, env={"VERIF_IN": p}, timeout=1500, label="lineprotocol-%d" % ci)
+        d = ctx.process(recs, out, rc, TEST, confirm)
+        os.remove(p)
+        if not ctx.violations and d.get("lines", 0) != len(part):
+            raise Infra("driver checked %s lines of %d" % (d.get("lines"), len(part)))
+        for k, v in d.items():
+            if isinstance(v, int) and not isinstance(v, bool):
+                done[k] = done.get(k, 0) + v
+            elif isinstance(v, dict):
+                done.setdefault(k, {}).update(v)
     ctx.cov["traces_validated_against_impl"] += done.get("lines", 0)
 
     # 2. the hinted-handoff block codec (marshalWrite / unmarshalWrite) on batches of the accepted lines
@@ -105,7 +121,9 @@ def run(ctx):
         "distinct_nontrivial": done.get("distinct_forms", 0),
         "rule": "TLC enumerates every line of the grammar of LineProtocol.tla with at most 2 non-default element forms "
                 "(<=3 tags, <=3 fields; forms of DESIGN Appendix F) together with its documented meaning; each is rendered "
-                "(plain characters chosen by VERIF_SEED, order-preserving) and parsed by the real ParsePointsWithPrecision",
+                "(plain characters chosen by VERIF_SEED, order-preserving) and parsed by the real ParsePointsWithPrecision; "
+                "distinct_nontrivial = distinct lines (element forms, timestamp form, precision, outcome) with at least one "
+                "non-default element",
         "lines_in_model": n_model, "lines_checked": done.get("lines", 0),
         "accepted": done.get("ok", 0), "rejected": done.get("reject", 0), "skipped": done.get("skip", 0),
         "tag_permutations": done.get("permutations", 0), "binary_roundtrips": done.get("binary_roundtrips", 0),
